@@ -189,6 +189,11 @@ pub(crate) fn same_cell(a: &Cell, b: &Cell) -> bool {
     }
 }
 
+thread_local! {
+    /// (parameters of the statement whose execution writes the rows, columns its PREPARE reply announced)
+    static STMT_SHAPE: std::cell::Cell<(usize, usize)> = std::cell::Cell::new((0, 0));
+}
+
 struct RowsOut {
     rows: Vec<Vec<Cell>>,
     refused: bool,
@@ -208,14 +213,18 @@ fn run_rows(cols: &Arc<Vec<Column>>, rows: &[Vec<Val>], st: &mut Stats) -> Resul
         }
     }
     prog.push(WOp::Finish);
-    let conv = Conv::new(vec![ClientCmd::new(with_byte(COM_STMT_PREPARE, b"id=1 p=0")), ClientCmd::new(cmd_execute(1, 0, 1, &[])), ping()]);
+    // the statement's own shape: how many parameters it takes (all sent inline as LONG) and how
+    // many columns its PREPARE reply announced - neither may matter to the rows
+    let (n_params, n_announced) = STMT_SHAPE.with(|x| x.get());
+    let blk = exec_block(&(0..n_params).map(|i| ExecParam { ty: 0x03, unsigned: false, wire: Some(vec![i as u8, 1, 0, 0]), long: false }).collect::<Vec<_>>(), true);
+    let conv = Conv::new(vec![ClientCmd::new(with_byte(COM_STMT_PREPARE, format!("id=1 p={}", n_params).as_bytes())), ClientCmd::new(cmd_execute(1, 0, 1, &blk)), ping()]);
     let s = conv.stream();
     let stream = Arc::new(s.bytes);
     let mut sim = sim_for(&stream, vec![]);
     sim.log_ops = false;
     let prog = Arc::new(prog);
     let behave = Box::new(move |_: usize, cb: &Cb| match cb {
-        Cb::Prepare(_) => Behavior::PrepReply { id: 1, params: param_cols(0), cols: param_cols(0) },
+        Cb::Prepare(_) => Behavior::PrepReply { id: 1, params: param_cols(n_params), cols: param_cols(n_announced) },
         Cb::Execute { .. } => Behavior::Prog(prog.clone()),
         _ => Behavior::Silent,
     });
@@ -343,6 +352,39 @@ fn check_pattern(n: usize, patterns: &[Vec<bool>], st: &mut Stats) -> Result<(),
         }
     }
     Ok(())
+}
+
+/// statements that take parameters *and* return rows: every pair of a parameter count and a column
+/// count around the NULL-bitmap size classes of both (the parameter block's bitmap has offset 0,
+/// the row's offset 2), with the PREPARE reply announcing the columns or none, five NULL patterns
+struct ParamsMeetColumns;
+const PMC_P: [usize; 9] = [0, 1, 2, 3, 7, 8, 9, 15, 20];
+const PMC_C: [usize; 9] = [1, 2, 6, 7, 8, 14, 15, 16, 40];
+impl Family for ParamsMeetColumns {
+    fn name(&self) -> String {
+        "statements-with-parameters-and-columns".into()
+    }
+    fn len(&self) -> u64 {
+        (PMC_P.len() * PMC_C.len() * 2) as u64
+    }
+    fn run(&self, idx: u64, st: &mut Stats) -> Result<(), Violation> {
+        let d = digits(idx, &[PMC_P.len() as u64, PMC_C.len() as u64, 2]);
+        let (p, c) = (PMC_P[d[0] as usize], PMC_C[d[1] as usize]);
+        st.nontrivial += 1;
+        st.bump("parameters_meet_columns");
+        let patterns: Vec<Vec<bool>> = vec![vec![false; c], (0..c).map(|i| i % 2 == 0).collect(), (0..c).map(|i| i + 1 == c).collect(), (0..c).map(|i| i == 0).collect(), vec![true; c], vec![false; c]];
+        STMT_SHAPE.with(|x| x.set((p, if d[2] == 0 { c } else { 0 })));
+        let r = check_pattern(c, &patterns, st);
+        STMT_SHAPE.with(|x| x.set((0, 0)));
+        r.map_err(|mut v| {
+            v.msg = format!("a statement of {} parameters whose PREPARE reply announced {} columns: {}", p, if d[2] == 0 { c } else { 0 }, v.msg);
+            v
+        })
+    }
+    fn describe(&self, idx: u64) -> J {
+        let d = digits(idx, &[PMC_P.len() as u64, PMC_C.len() as u64, 2]);
+        json!({"parameters": PMC_P[d[0] as usize], "columns": PMC_C[d[1] as usize], "prepare_reply_announces_the_columns": d[2] == 0})
+    }
 }
 
 struct AllPatterns {
@@ -1390,12 +1432,12 @@ pub fn build(quick: bool) -> Check {
     Check {
         id: "C07",
         level: "model_checking",
-        rule: format!("binary resultsets through the real run_on, decoded from the advertised column definitions by refwire and cell by cell by mysql_common's BinValue: column counts 1..{} x all 2^n NULL patterns (three rows: pattern, complement, pattern) with 12 cycling column types of different widths; column counts up to 1000 with structured patterns (none, all, every single NULL / non-NULL, alternations, prefixes/suffixes ending around every multiple of 8) and of 2046..4097 (thorough: 16384, 65535) columns with single NULLs / non-NULLs and prefixes / suffixes around columns 2038..2055, 4093..4095 and the last bitmap byte; NULL into NOT NULL for all patterns of <= 6 columns x 4 flag placements; the matrix of {} value sources x all 31 column types x signedness x NOT NULL; at the to_mysql_bin seam every second of 0..838:59:59 x 3 microsecond values as TIME, every calendar date of years 0..9999 as DATE, every second of a day x 3 microsecond values as DATETIME, 22 microsecond values of every decimal shape at midnight and other times and at day boundaries of TIME; a refused cell (NULL into NOT NULL, wrong type, out of range, invalid generic date/time) at each column followed by a replacement value; rows built partly by write_col and partly by write_row over columns of different width and signedness, every split point, with values that fit a neighbouring column but not their own. Oracle: decoded cells equal the written values, bitmap bits = NULL cells exactly, natural pairings accepted, anything accepted is exact, mismatches refused without emitting undecodable output. Temporal values the protocol cannot carry (nanoseconds below a microsecond, chrono's leap second, durations of 2^32 days and more): refused, or decoded to a legal value equal to the written one up to the microsecond. Binary resultsets of 2 and 10 columns exactly N exchanges apart (N = 0, 1, 254..257, 65534..65537; thorough: more) with text resultsets, completions or zero-column sets in between. Very many rows: one binary resultset of 4097 / 8193 / 16385 / 65537 (thorough: up to 300000) rows of 3 and 10 columns, first row long, NULLs and values moving with the row number, every row compared. Values in context: every sequence of <= 3 (thorough: 4) events on one connection (rows of other shapes incl. all-NULL / alternating NULLs / 300- and 70000-byte cells, a refused cell, a new resultset behind finish_one with the same or other columns, behind a completion, behind a zero-column set, a new command in the same or the other protocol, finish_error) followed by a probe row of characteristic values for nine column types; every row of the conversation must decode cell for cell to what was written. Non-trivial = bitmap crosses a byte boundary or a type pairing the unit tests never make.", if quick {12} else {14}, value_palette().len()),
+        rule: format!("statements of 0..20 parameters returning rows of 1..40 columns (every pair around the bitmap size classes of both, the PREPARE reply announcing the columns or none, five NULL patterns); binary resultsets through the real run_on, decoded from the advertised column definitions by refwire and cell by cell by mysql_common's BinValue: column counts 1..{} x all 2^n NULL patterns (three rows: pattern, complement, pattern) with 12 cycling column types of different widths; column counts up to 1000 with structured patterns (none, all, every single NULL / non-NULL, alternations, prefixes/suffixes ending around every multiple of 8) and of 2046..4097 (thorough: 16384, 65535) columns with single NULLs / non-NULLs and prefixes / suffixes around columns 2038..2055, 4093..4095 and the last bitmap byte; NULL into NOT NULL for all patterns of <= 6 columns x 4 flag placements; the matrix of {} value sources x all 31 column types x signedness x NOT NULL; at the to_mysql_bin seam every second of 0..838:59:59 x 3 microsecond values as TIME, every calendar date of years 0..9999 as DATE, every second of a day x 3 microsecond values as DATETIME, 22 microsecond values of every decimal shape at midnight and other times and at day boundaries of TIME; a refused cell (NULL into NOT NULL, wrong type, out of range, invalid generic date/time) at each column followed by a replacement value; rows built partly by write_col and partly by write_row over columns of different width and signedness, every split point, with values that fit a neighbouring column but not their own. Oracle: decoded cells equal the written values, bitmap bits = NULL cells exactly, natural pairings accepted, anything accepted is exact, mismatches refused without emitting undecodable output. Temporal values the protocol cannot carry (nanoseconds below a microsecond, chrono's leap second, durations of 2^32 days and more): refused, or decoded to a legal value equal to the written one up to the microsecond. Binary resultsets of 2 and 10 columns exactly N exchanges apart (N = 0, 1, 254..257, 65534..65537; thorough: more) with text resultsets, completions or zero-column sets in between. Very many rows: one binary resultset of 4097 / 8193 / 16385 / 65537 (thorough: up to 300000) rows of 3 and 10 columns, first row long, NULLs and values moving with the row number, every row compared. Values in context: every sequence of <= 3 (thorough: 4) events on one connection (rows of other shapes incl. all-NULL / alternating NULLs / 300- and 70000-byte cells, a refused cell, a new resultset behind finish_one with the same or other columns, behind a completion, behind a zero-column set, a new command in the same or the other protocol, finish_error) followed by a probe row of characteristic values for nine column types; every row of the conversation must decode cell for cell to what was written. Non-trivial = bitmap crosses a byte boundary or a type pairing the unit tests never make.", if quick {12} else {14}, value_palette().len()),
         assumptions: vec!["integer range rules are C15's; here an accepted integer must be exact".into()],
         bounds: json!({"exhaustive_null_patterns_up_to_columns": if quick {12} else {14}, "max_columns": if quick {4097} else {65535}}),
         exhaustive: true,
         caps_hit: vec![],
-        families: vec![Box::new(AllPatterns { max_n: if quick { 12 } else { 14 } }), Box::new(Structured { ns }), Box::new(NotNull), Box::new(TypeMatrix { vals: value_palette() }), Box::new(TemporalBin), Box::new(Recover), Box::new(MixedRows), Box::new(super::aftermath::Aftermath { prop: "C07" }), Box::new(TemporalEdges { bin: true }), Box::new(ResultsetsBetween { ns: if quick { vec![0, 1, 254, 255, 256, 257, 65_534, 65_535, 65_536, 65_537] } else { vec![0, 1, 2, 126, 127, 128, 254, 255, 256, 257, 511, 512, 4095, 4096, 32_767, 32_768, 65_533, 65_534, 65_535, 65_536, 65_537, 131_071, 131_072] } }), Box::new(ManyRows { ns: if quick { vec![4097, 8193, 16385, 65537] } else { vec![255, 257, 4095, 4097, 8193, 16385, 32769, 65535, 65537, 131073, 300000] } }), Box::new(super::context::ContextWalks { prop: "C07", depth: 1, start_bin: true }), Box::new(super::context::ContextWalks { prop: "C07", depth: 2, start_bin: true }), Box::new(super::context::ContextWalks { prop: "C07", depth: 3, start_bin: true }), Box::new(super::context::ContextWalks { prop: "C07", depth: if quick { 0 } else { 4 }, start_bin: true })],
-        required: vec!["many_rows", "temporal_edges", "resultsets_between", "context_walks", "mixed_rows", "mixed_rows_trap_refused", "aftermath_recovered", "bitmaps_crossing_a_byte", "structured_patterns", "null_into_not_null", "matrix_refused", "matrix_accepted", "binary_durations", "binary_dates", "binary_times_of_day", "recoveries"],
+        families: vec![Box::new(ParamsMeetColumns), Box::new(AllPatterns { max_n: if quick { 12 } else { 14 } }), Box::new(Structured { ns }), Box::new(NotNull), Box::new(TypeMatrix { vals: value_palette() }), Box::new(TemporalBin), Box::new(Recover), Box::new(MixedRows), Box::new(super::aftermath::Aftermath { prop: "C07" }), Box::new(TemporalEdges { bin: true }), Box::new(ResultsetsBetween { ns: if quick { vec![0, 1, 254, 255, 256, 257, 65_534, 65_535, 65_536, 65_537] } else { vec![0, 1, 2, 126, 127, 128, 254, 255, 256, 257, 511, 512, 4095, 4096, 32_767, 32_768, 65_533, 65_534, 65_535, 65_536, 65_537, 131_071, 131_072] } }), Box::new(ManyRows { ns: if quick { vec![4097, 8193, 16385, 65537] } else { vec![255, 257, 4095, 4097, 8193, 16385, 32769, 65535, 65537, 131073, 300000] } }), Box::new(super::context::ContextWalks { prop: "C07", depth: 1, start_bin: true }), Box::new(super::context::ContextWalks { prop: "C07", depth: 2, start_bin: true }), Box::new(super::context::ContextWalks { prop: "C07", depth: 3, start_bin: true }), Box::new(super::context::ContextWalks { prop: "C07", depth: if quick { 0 } else { 4 }, start_bin: true })],
+        required: vec!["parameters_meet_columns", "many_rows", "temporal_edges", "resultsets_between", "context_walks", "mixed_rows", "mixed_rows_trap_refused", "aftermath_recovered", "bitmaps_crossing_a_byte", "structured_patterns", "null_into_not_null", "matrix_refused", "matrix_accepted", "binary_durations", "binary_dates", "binary_times_of_day", "recoveries"],
     }
 }
